@@ -48,7 +48,7 @@ def build(r, leaf_str=False, via="ctor", style=0):
     if c in ("ccAny", "ccXor"):
         import puan.modules.configurator as cc
         cls = cc.Any if c == "ccAny" else cc.Xor
-        dflt = [r["d"]] if r.get("d") else None
+        dflt = ([r["d"]] + ([r["d2"]] if r.get("d2") else [])) if r.get("d") else None
         if via == "from_list":
             return cls.from_list(args, variable=ident, default=dflt or [])
         return cls(*args, default=dflt, variable=ident)
@@ -63,9 +63,13 @@ def to_json_recipe(r):
         d = {"id": r["id"]}
         if (r["lo"], r["hi"]) != (0, 1):
             d["bounds"] = {"lower": r["lo"], "upper": r["hi"]}
+        if r["id"][:1] in ("b", "t"):
+            d["type"] = "Variable" if r["id"][:1] == "b" else "Proposition"      # both spellings denote a variable
         return d
     c = r["c"]
     d = {"type": {"ccAny": "Any", "ccXor": "Xor", "Cfg": "StingyConfigurator"}.get(c, c)}
+    if c == "AtLeast" and not r["id"]:
+        del d["type"]                    # a document without type but with propositions is an AtLeast
     if r["id"]: d["id"] = r["id"]
     if c in ("ccAny", "ccXor") and r.get("d"):
         d["default"] = [{"id": r["d"]}]
